@@ -261,10 +261,10 @@ pub fn gen_cmd_world(rng: &mut Rng, first_party_in_registry: bool) -> CmdWorld {
         if rng.chance(1, 2) {
             let vs = vers_of(name, rng);
             let graph_vs: Vec<VetVersion> = graph.pkgs.iter().filter(|p| &p.name == name).map(|p| p.version.clone()).collect();
-            let l: Vec<ExemptedDependency> = (0..rng.range(1, 2))
+            let l: Vec<ExemptedDependency> = (0..rng.range(1, 3))
                 .map(|_| ExemptedDependency {
                     version: if rng.chance(3, 4) { rng.pick(&graph_vs).clone() } else { rng.pick(&vs).clone() },
-                    criteria: gen::gen_crit_list(rng, &crits, false),
+                    criteria: if rng.chance(1, 10) { vec![] } else { gen::gen_crit_list(rng, &crits, false) },
                     suggest: !rng.chance(1, 6),
                     notes: None,
                 })
@@ -977,6 +977,19 @@ pub fn exec_history(r: &mut Report, rng: &mut Rng, idx: u64, mut w: CmdWorld, p:
     let prop = r.prop.clone();
     let mut driver: Option<Driver> = if prop == "C06" { Some(Driver::spawn()) } else { None };
     w.remote.install();
+    if fixed.is_none() && rng.chance(1, 5) {
+        // the store on disk was last written by an older cargo-vet, or touched by hand without
+        // changing what it says: unlocked commands accept it and write the canonical form
+        let mut files = p.files();
+        if rng.chance(1, 2) {
+            files[1] = files[1].replacen("version = \"1.0\"", "version = \"0.9\"", 1);
+        } else {
+            files[0] = format!("# reviewed by hand on 2022-12-01\n{}", files[0]);
+        }
+        for (n, t) in ["audits.toml", "config.toml", "imports.lock"].iter().zip(files.iter()) {
+            fs::write(p.store_dir().join(n), t).unwrap();
+        }
+    }
     let steps = fixed.as_ref().map(|f| f.len()).unwrap_or_else(|| rng.range(3, 6));
     let mut trace: Vec<String> = vec![format!("history#{idx}: {} packages, {} peers", w.graph.pkgs.len(), w.remote.peers.len())];
     let mut nontrivial = false;
